@@ -78,6 +78,7 @@ fn main() {
         threads,
         verif_root,
         started: Instant::now(),
+        case_base: 0,
         budget_s: budget_s.unwrap_or(match tier {
             Tier::Quick => 240,
             Tier::Thorough => 2400,
